@@ -169,8 +169,8 @@ theorem chords_discrete (s : NoteSeq) (tm : Int → Rat) (ev : List String) (S s
 coincident chords is a non-empty list of `end − start` figures -/
 theorem chords_extract_canonical (s : NoteSeq) (start end_ : Int) (h0 : 0 ≤ start) (hse : start < end_)
     (r : SimpleResult String) (hr : chordsFromQuantized s start end_ = .ok r) :
-    CanonicalChords r.startStep r.events ∧ r.startStep = start ∧ r.endStep = r.startStep + r.events.length ∧
-      r.stepsPerQuarter = s.spq := by
+    CanonicalChords r.startStep r.events ∧ r.startStep = start ∧ r.endStep = end_ ∧
+      r.endStep = r.startStep + r.events.length ∧ r.stepsPerQuarter = s.spq := by
   cases hspb : stepsPerBar s with
   | error e => simp [chordsFromQuantized, hspb] at hr
   | ok spb =>
@@ -178,7 +178,7 @@ theorem chords_extract_canonical (s : NoteSeq) (start end_ : Int) (h0 : 0 ≤ st
     · rw [he] at hr; cases hr
     · rw [hE] at hr
       cases hr
-      refine ⟨⟨?_, h0⟩, rfl, ?_, rfl⟩
+      refine ⟨⟨?_, h0⟩, rfl, rfl, ?_, rfl⟩
       · intro h
         simp only at h
         rw [h] at hl
